@@ -112,7 +112,7 @@ def run(tier):
         raise common.Infra("in-process atlas driver needed for the library level")
     maxh = 5
     t = ar.run_atlas_mc(maxh, ("digest", "none"), ("none", "status", "reset", "cut"))
-    recs = [r for r in t.records if r["fault"]["kind"] == "none"]
+    recs = [r for r in t.records if r["fault"]["kind"] == "none" and r.get("keyOk", True)]
     pool = sl.Pool(v.seed)
     root = tempfile.mkdtemp(prefix="c16-", dir=b.root)
     work = []
